@@ -92,7 +92,10 @@ impl Prop for C15 {
         let shape = shape.unwrap_or_else(|| r.below(SHAPES.len()) as u8);
         // magnitudes {0} u [1e-3, 1e6]
         let scale = *r.pick(SCALES) / 4.25;
-        let len = if tier == Tier::Thorough && r.chance(0.03) {
+        let len = if r.chance(0.003) {
+            // some panics need a long stream (a counter reaching a threshold, drift of running sums)
+            crate::feed::long_len(r)
+        } else if tier == Tier::Thorough && r.chance(0.03) {
             r.range(2_000, 10_000)
         } else {
             match r.below(10) {
@@ -273,7 +276,7 @@ impl Prop for C15 {
                         break;
                     }
                 }
-                Ev::L { .. } | Ev::M { .. } => {}
+                Ev::L { .. } | Ev::M { .. } | Ev::C { .. } => {}
             }
         }
         if out.violation.is_some() && fed_immoderate_magnitude(spec, &hist[viol_rep.min(hist.len() - 1)], Symptom::Panic) {
@@ -302,7 +305,7 @@ impl Prop for C15 {
     }
 
     fn rule(&self) -> String {
-        "Run i<S1 enumerates every wrapper (32 unary views + PFE + EFT) alone at every N in the tier's list (quick: 1..9,16,33,64; thorough: 1..64) under each of the 14 workload shapes; the next block enumerates every ordered pair of wrappers as a two-level chain at several (N_outer,N_inner); the remaining runs are random trees (depth 2-3, combinators, stalled leaves). Everything else (secondary parameters, stall length, magnitude scale in {0} u [1e-3,1e6], stream length 1..600 (thorough: a slice up to 10^4), last() before the first update, repeated last(), clone and drop points) is drawn from the run's PRNG. A case is the pair (topology+parameters, event-kind schedule); distinct = distinct hash of that pair; non-trivial = a stall, an early or repeated last(), a clone or a drop fired and at least one delivery executed after it. The whole batch is executed by two builds of the same harness: debug assertions + overflow checks on, and both off."
+        "Run i<S1 enumerates every wrapper (32 unary views + PFE + EFT) alone at every N in the tier's list (quick: 1..9,16,33,64; thorough: 1..64) under each of the 14 workload shapes; the next block enumerates every ordered pair of wrappers as a two-level chain at several (N_outer,N_inner); the remaining runs are random trees (depth 2-3, combinators, stalled leaves). Everything else (secondary parameters, stall length, magnitude scale in {0} u [1e-3,1e6], stream length 1..600 (0.3% long: 4.2k-1.1M; thorough: a further slice up to 10^4), last() before the first update, repeated last(), clone and drop points) is drawn from the run's PRNG. A case is the pair (topology+parameters, event-kind schedule); distinct = distinct hash of that pair; non-trivial = a stall, an early or repeated last(), a clone or a drop fired and at least one delivery executed after it. The whole batch is executed by two builds of the same harness: debug assertions + overflow checks on, and both off."
             .into()
     }
     fn assumptions(&self) -> Vec<String> {
